@@ -32,7 +32,7 @@ import (
 
 // keys is what the generators need to know about the world.
 type keys struct {
-	A, B, X, U        *drv.Dev
+	A, B, X, U         *drv.Dev
 	GCAk, Temp, Server refenc.Key
 }
 
@@ -53,7 +53,7 @@ type world struct {
 	overlong  string // set once an entry the wire format cannot carry was accepted: names the finding class
 	closeKey  string // finding class of a Close() panic that the scenario itself provokes
 	closeDead bool   // Close() panicked: the instance cannot be closed again
-	failed    bool // a liveness probe failed: stop issuing inputs
+	failed    bool   // a liveness probe failed: stop issuing inputs
 	held      []net.Conn
 	deltas    map[int]bool
 	rm        map[string]bool
@@ -417,6 +417,9 @@ func (w *world) deliver(d dg, i int) {
 	w.r.Count("inputs.datagram."+d.class, 1)
 	if len(d.b) >= 80 {
 		w.r.Nontrivial(fmt.Sprintf("dg/%x/%d", d.b[:80], now))
+	}
+	if i == 7 {
+		w.r.Sample(map[string]interface{}{"kind": "datagram", "class": d.class, "now": now, "offset": w.offset(), "socket": viaSocket, "bytes": clip(d.b)})
 	}
 }
 
